@@ -158,27 +158,30 @@ def sectionRef (infoUnits : List (Lookup.CU × R UnitCtx) × Option Err) (infoSi
       else go rest
   go infoUnits.1
 
-/-- `_parse_debug_types` + lookup; `first` = this is the first call on the DWARFInfo -/
-def sigRef (typeUnits : List (Lookup.CU × R UnitCtx) × Option Err) (first : Bool) (sig : Int) : R (Nat × DieObs) := do
-  if first then
-    match typeUnits.2 with
-    | some e => throw e
-    | none => pure ()
-  -- dict keyed by signature: the last unit with that signature
-  let hit := typeUnits.1.foldl (fun acc (cu, rU) =>
-    match cu.header.getInt "signature" with
-    | .ok s => if s = sig then some (cu, rU) else acc
-    | .error _ => acc) none
-  match hit with
-  | none => .error .keyError
-  | some (cu, rU) => do
-    let to ← cu.header.getNat "type_offset"
-    let U ← rU
-    let d ← getCachedDIE U (cu.cuOffset + to)
-    return (cu.cuOffset, d)
-
 structure QState where
-  sigFirst : Bool := true
+  /-- a DIE below the unit's first-entry offset was fetched (see `fetch`) -/
+  low : Bool := false
+
+/--
+  `_get_cached_DIE(offset)` inside its domain.  `get_top_DIE` returns `_dielist[0]` ("a top DIE always has
+  minimal offset"): once a DIE at an offset BELOW `cu_die_offset` has been cached (a DW_AT_sibling or a
+  type_offset pointing into or before the unit header — never in a well-formed unit) it takes the top DIE's
+  slot and every later parse resolves its index forms against that entry; DIEs cached earlier keep their
+  values.  What the unit answers from then on depends on the cache history, which the pure model
+  (`getCachedDIE`: values of (unit, offset)) does not carry — C10's subject.  Such a fetch is marked with an
+  error class nothing in the DIE model raises, the run stops there and the case is reported as `low_fetch`.
+-/
+def fetch (U : UnitCtx) (offset : Nat) : R DieObs :=
+  if offset < U.cuDieOffset then .error .stopIteration else getCachedDIE U offset
+
+def isLow {α : Type} (r : R α) : Bool :=
+  match r with
+  | .error .stopIteration => true
+  | _ => false
+
+/-- `get_DIE_by_sig8`: `Model.C04.dieBySig8` with the marked fetch -/
+def sigRef (typeUnits : List (Lookup.CU × R UnitCtx) × Option Err) (sig : Int) : R (Nat × DieObs) :=
+  dieBySig8 fetch typeUnits.1 typeUnits.2 sig
 
 /-- iterate one unit and run the queries of the canonical order -/
 def runUnit (w : World) (infoUnits typeUnits : List (Lookup.CU × R UnitCtx) × Option Err)
@@ -186,12 +189,14 @@ def runUnit (w : World) (infoUnits typeUnits : List (Lookup.CU × R UnitCtx) × 
   match rU with
   | .error e => (Json.mkObj [("hdr", cuHdrJson cu), ("dies", errJson e)], st)
   | .ok U =>
-    let G := getCachedDIE U
+    let G := fetch U
     let fuel := 2 * U.data.length + 8
     match iterDIEs G U.cuOffset U.cuDieOffset fuel with
-    | .error e => (Json.mkObj [("hdr", cuHdrJson cu), ("dies", errJson e)], st)
+    | .error e => (Json.mkObj [("hdr", cuHdrJson cu), ("dies", errJson e)], { st with low := st.low || e == .stopIteration })
     | .ok dies =>
-      let children := dies.map fun (d, _) => resJson (fun l => Json.arr (l.map jN).toArray) (childrenOf G U.cuOffset fuel d)
+      let childRes := dies.map fun (d, _) => childrenOf G U.cuOffset fuel d
+      let st := { st with low := st.low || childRes.any isLow }
+      let children := childRes.map fun r => resJson (fun l => Json.arr (l.map jN).toArray) r
       let infoSize := (w.info.map (·.length)).getD 0
       let (refs, st') := dies.foldl (fun (acc, st) (d, _) =>
         d.attrs.foldl (fun (acc, st) a =>
@@ -202,7 +207,9 @@ def runUnit (w : World) (infoUnits typeUnits : List (Lookup.CU × R UnitCtx) × 
               | .error e => (acc ++ [errJson e], st)
               | .ok (.unitRel x) => (acc ++ [refResJson (do let d ← unitDIEFromRefaddr U x; return (U.cuOffset, d))], st)
               | .ok (.section x) => (acc ++ [refResJson (sectionRef infoUnits infoSize x)], st)
-              | .ok (.sig8 s) => (acc ++ [refResJson (sigRef typeUnits st.sigFirst s)], { st with sigFirst := false })
+              | .ok (.sig8 s) =>
+                let r := sigRef typeUnits s
+                (acc ++ [refResJson r], { st with low := st.low || isLow r })
             else (acc, st)
           | _ => (acc, st)) (acc, st)) (([] : List Json), st)
       (Json.mkObj [("hdr", cuHdrJson cu), ("dies", Json.mkObj [("ok", Json.arr (dies.map fun (d, p) => dieJson d p).toArray)]),
@@ -219,11 +226,11 @@ def runWorld (w : World) : Except String Json := do
   let (ij, st) := infoUnits.1.foldl (fun (acc, st) (cu, rU) =>
     let (j, st') := runUnit w infoUnits typeUnits cu rU st
     (acc ++ [j], st')) (([] : List Json), ({} : QState))
-  let (tj, _) := typeUnits.1.foldl (fun (acc, st) (cu, rU) =>
+  let (tj, st) := typeUnits.1.foldl (fun (acc, st) (cu, rU) =>
     let (j, st') := runUnit w infoUnits typeUnits cu rU st
     (acc ++ [j], st')) (([] : List Json), st)
   let hook := (infoUnits.1 ++ typeUnits.1).any fun (_, rU) => match rU with | .ok U => topHookFails U | .error _ => false
-  return Json.mkObj [("top_hook_fails", Json.bool hook),
+  return Json.mkObj [("top_hook_fails", Json.bool hook), ("low_fetch", Json.bool st.low),
                      ("info", Json.mkObj [("units", Json.arr ij.toArray), ("end", endJson infoUnits.2)]),
                      ("types", Json.mkObj [("units", Json.arr tj.toArray), ("end", endJson typeUnits.2)])]
 
@@ -295,6 +302,9 @@ def wfParts (le : Bool) (p : Placed) (abbrevLen : Nat) (offs : List Nat) : List 
 def wfPlaced (le : Bool) (p : Placed) (abbrevLen : Nat) (offs : List Nat) : Bool :=
   (wfParts le p abbrevLen offs).all id
 
+/-- a DWARF 5 type unit placed in `.debug_info` (DW_UT_type = 2, DW_UT_split_type = 6) -/
+def isTypeUnit5 (q : Placed) : Bool := !q.isTypes && q.u.version == 5 && (q.u.utype == 2 || q.u.utype == 6)
+
 /-- expected reference resolution, `null` when the reference designates no entry (outside the quantifier) -/
 def expectRef (infoP typeP : List Placed) (infoSize : Nat) (p : Placed) (a : AttrObs) : Json :=
   let found (q : Placed) (x : Nat) : Json :=
@@ -313,8 +323,10 @@ def expectRef (infoP typeP : List Placed) (infoSize : Nat) (p : Placed) (a : Att
         | none => Json.null
       else Json.null
     else if f = "DW_FORM_ref_sig8" then
-      -- DWARF 4: the type unit of `.debug_types` with that signature; the entry at its type_offset
-      match (typeP.filter fun q => q.u.id8 == v.toNat) with
+      -- DWARF 4 §7.5.1.2: the type unit of `.debug_types` with that signature; DWARF 5 §7.5.1.2: the unit of
+      -- `.debug_info` whose header says DW_UT_type / DW_UT_split_type with that type_signature.  The entry at
+      -- the unit's type_offset.  (A signature carried by several units designates nothing definite.)
+      match (typeP.filter fun q => q.u.id8 == v.toNat) ++ (infoP.filter fun q => isTypeUnit5 q && q.u.id8 == v.toNat) with
       | [q] => found q (q.off + q.u.typeOff)
       | _ => Json.null
     else Json.null
